@@ -191,9 +191,13 @@ func c07NoConsume(c *ctx, pr *Protocol) {
 	}
 }
 
+// isRoundStart: fn is the Start of a round, or a private helper that Start calls synchronously.
 func isRoundStart(pr *Protocol, fn *ssa.Function) bool {
 	for _, r := range pr.Rounds {
 		if r.Fns["Start"] == fn {
+			return true
+		}
+		if st := r.Fns["Start"]; st != nil && core.PrivateHelper(fn) && syncUnit(st)[fn] {
 			return true
 		}
 	}
@@ -206,7 +210,7 @@ func c07ReadSet(c *ctx, pr *Protocol) {
 	for ri, r := range pr.Rounds {
 		st := r.Fns["Start"]
 		if st != nil && ri > 0 {
-			for _, g := range core.WithClosures(st) {
+			for _, g := range unitFuncs(st) {
 				for _, b := range g.Blocks {
 					for _, in := range b.Instrs {
 						u, ok := in.(*ssa.UnOp)
@@ -260,11 +264,13 @@ func selfStored(pr *Protocol, ri int, arr string) bool {
 		if st == nil {
 			continue
 		}
-		for _, b := range st.Blocks {
-			for _, in := range b.Instrs {
-				if s, ok := in.(*ssa.Store); ok {
-					if ia, ok := s.Addr.(*ssa.IndexAddr); ok && core.LastFields(ia.X, 1) == arr {
-						return true
+		for g := range syncUnit(st) {
+			for _, b := range g.Blocks {
+				for _, in := range b.Instrs {
+					if s, ok := in.(*ssa.Store); ok {
+						if ia, ok := s.Addr.(*ssa.IndexAddr); ok && core.LastFields(ia.X, 1) == arr {
+							return true
+						}
 					}
 				}
 			}
@@ -274,7 +280,7 @@ func selfStored(pr *Protocol, ri int, arr string) bool {
 }
 
 func selfStoredBefore(st *ssa.Function, arr string, read ssa.Instruction) bool {
-	for _, b := range st.Blocks {
+	for _, b := range read.Parent().Blocks {
 		for _, in := range b.Instrs {
 			if s, ok := in.(*ssa.Store); ok {
 				if ia, ok := s.Addr.(*ssa.IndexAddr); ok && core.LastFields(ia.X, 1) == arr && s.Parent() == read.Parent() && core.InstrDominates(s, read) {
